@@ -8,11 +8,19 @@
     always hands the outer token stream back unchanged, whatever the trial does and however
     it ends — so deciding "type-id or raw value" never consumes or loses outer tokens;
   * `C02_trial_events_silent`: a trial parse that delivers no callback leaves the stream alone;
-  * table facts: the token sets the type parser branches on are the expected ones.
+  * table facts: the token sets the type parser branches on are the expected ones;
+  * `C02_pointer_chain` (`Theorems/PtrChain.lean`): for EVERY sequence of `*`, `const`,
+    `volatile` tokens (any length, any order) after a type, followed by a token that ends the
+    declarator prefix, `_parse_cv_ptr_or_fn` builds the chain `applyPtrOps` and leaves that
+    token in the stream, for every stream and parser state;
+  * `C02_pointer_level`, `C02_pointer_ops_compose`: what the chain denotes — each `*` makes a
+    pointer to the type so far whose `const` / `volatile` flags are exactly the qualifiers
+    written after it (in any order and number), and chains compose level by level.
 -/
 import CxxModel.Interp
 import CxxModel.Tables
 import CxxModel.Parser.Decl
+import CxxModel.Theorems.PtrChain
 namespace Cxx
 
 /-- after `bounded`, the continuation runs on the outer buffer -/
@@ -37,5 +45,30 @@ theorem C02_type_token_sets :
     Gen.compoundFundamentals = ["char", "double", "float", "int", "long", "short", "signed", "unsigned"] ∧
     Gen.msvcConventions = ["__cdecl", "__clrcall", "__fastcall", "__stdcall", "__thiscall", "__vectorcall"] := by
   decide
+
+
+theorem C02_pointer_chain (env : Env) (rec : P.Core) (nf : Bool) (ops : List Tok) (d d1 : DType) (F : Nat) (w : World)
+    (bmid b' : Buf) (term : Tok)
+    (hy : Yields env.cfg w.buf ops bmid) (ha : applyPtrOps d (ops.map (·.type)) = some d1)
+    (htok : tokenEofOk env.cfg bmid = .ok (some term, b')) (he : endsPtrPrefix term.type = true)
+    (hF : ops.length + 1 ≤ F) :
+    ∃ (w' : World) (t' : Tok), interp env (P.parseCvPtrOrFnStep F rec d nf) w = (w', .ok d1) ∧
+      w'.buf = returnToken t' b' ∧ t'.tv = term.tv ∧ SameParse w w' :=
+  cvPtr_chain env rec nf ops d d1 F w bmid b' term hy ha htok he hF
+
+theorem C02_pointer_level (d : DType) (cvs : List String) (hr : P.isRefLike d = false)
+    (h : ∀ x ∈ cvs, x = "const" ∨ x = "volatile") :
+    applyPtrOps d ("*" :: cvs) = some (.ptr d (cvs.contains "const") (cvs.contains "volatile")) :=
+  applyPtrOps_level d cvs hr h
+
+theorem C02_pointer_ops_compose (a b : List String) (d : DType) :
+    applyPtrOps d (a ++ b) = (applyPtrOps d a).bind (fun d' => applyPtrOps d' b) :=
+  applyPtrOps_append a b d
+
+/-! non-vacuity: `* const volatile * volatile` over `int` -/
+example (n : PQName) :
+    applyPtrOps (.type n false false) ["*", "const", "volatile", "*", "volatile"] =
+      some (.ptr (.ptr (.type n false false) true true) false true) := by
+  simp [applyPtrOps, ptrStep, P.isRefLike, P.setConst, P.setVolatile]
 
 end Cxx
